@@ -30,6 +30,12 @@ CHECKS = {
                 note="trusted: reference interpreter (except__ is the only runtime-error handler), observable VM state key (error flag, pending "
                      "messages, contexts, state) for the history exploration",
                 technique="exhaustive fault-placement enumeration plus explicit-state search over run histories on the real VM"),
+    "C03": dict(level="exploration", ref="3/C03",
+                text="all sequences of variable operations (assign, private forms, params, reads; plain globals in 3 spellings, get/setVariable, "
+                     "allVariables) distributed over all nestings of scope openers (call, if, loops with 2 iterations, with-do, spawn) up to "
+                     "the tier's bounds, every read compared with an environment-chain reference model",
+                note="trusted: the reference scope model in vf/checks/c03.py; excluded corner listed in assumptions",
+                technique="bounded exhaustive enumeration of programs against an environment-chain reference model"),
 }
 
 PENDING_REASON = "check not built yet in this round (planned, see DESIGN.md section 3)"
